@@ -405,8 +405,17 @@ def args2list(max_shape, shapes, *args):
     return map(args2vals, zip(*it))
 
 
+_re_float = re.compile(r'^\s*[+-]?(\d+\.?\d*|\.\d+)(E[+-]?\d+)?\s*$', re.I | re.A)
+
+
+def _float(v):
+    if isinstance(v, str) and not _re_float.match(v):
+        raise ValueError  # Python only literals (e.g., `inf`, `nan`, `1_0`).
+    return float(v)
+
+
 def wrap_ufunc(
-        func, input_parser=lambda *a: map(float, a), check_error=get_error,
+        func, input_parser=lambda *a: map(_float, a), check_error=get_error,
         args_parser=lambda *a: map(replace_empty, a), otype=Array,
         ranges=False, return_func=lambda res, *args: res, check_nan=True, **kw):
     """Helps call a numpy universal function (ufunc)."""
